@@ -49,7 +49,9 @@ def _body(sym, t, start):
     pcode = TEMPLATES[t] if t in TEMPLATES else INTERP_TEMPLATES[t]
     n_ticks = N.get(t, 26)
     ctl = sym.shard.get("control")
-    ctl_tick = sym.int("ctl_tick", 2, 10) if ctl else None
+    ctl_tick = None
+    if ctl:
+        ctl_tick = sym.shard["ctl_tick"] if "ctl_tick" in sym.shard else sym.int("ctl_tick", 2, 10)
     with engine_rig(sym, pcode, durations={"SetOut1": 2, "CmdA": 3, "CmdB": 2, "CmdC": 2}) as rig:
         e = rig.engine
         rig.now = start
@@ -59,7 +61,10 @@ def _body(sym, t, start):
         for tg in e._iter_all_tags():
             last_value[tg.name] = tg.get_value()
         for i in range(n_ticks):
-            dt = sym.real(f"d{i}", 0.0, 5.0, lo_strict=True)
+            if "ctl_tick" in sym.shard and not (ctl_tick - 1 <= i <= ctl_tick + 5):
+                dt = 0.09375 + 0.0078125 * (i % 5)      # outside the window around the control command: irregular concrete increments
+            else:
+                dt = sym.real(f"d{i}", 0.0, 5.0, lo_strict=True)
             if ctl_tick is not None and ctl_tick == i:
                 rig.user(ctl)
             if ctl_tick is not None and ctl in ("Pause", "Hold") and ctl_tick + 3 == i:
@@ -102,7 +107,9 @@ def _shards(tier):
     from props.interp_common import TEMPLATES as INTERP_TEMPLATES
     out += [{"template": t} for t in INTERP_TEMPLATES]
     for c in ("Pause", "Hold", "Restart", "Stop"):
-        out += [{"template": t, "control": c} for t in list(TEMPLATES) + ["block", "nested", "watch_block", "alarm_block", "macro", "uod_in_macro"] if t in TEMPLATES or t in INTERP_TEMPLATES]
+        for t in list(TEMPLATES) + ["block", "nested", "watch_block", "alarm_block", "macro", "uod_in_macro"]:
+            if t in TEMPLATES or t in INTERP_TEMPLATES:
+                out += [{"template": t, "control": c, "ctl_tick": k} for k in range(2, 11)]
     return out
 
 
@@ -116,7 +123,7 @@ OBLIGATIONS = [Obligation(
              "openpectus.engine.engine:Engine.notify_tag_updates"],
     symbolic="every tick increment: arbitrary real in (0, 5] s; the tick of the user's Pause/Hold/Restart/Stop (2..10) in the shards that have one",
     bounds={"quick": "5 templates (block + simulate/simulate off; nested blocks + End blocks + Run counter + Base; output command + pause/unpause; a Watch's block waiting for the block lock held by the main flow; block in a re-arming Alarm), 14-24 ticks",
-            "thorough": "the 5 templates + every template of props/interp_common.py (sequences, nested blocks, watches, alarms, macros, UOD commands in macros / alarms), 14-26 ticks; plus Pause / Hold (3 ticks) / Restart / Stop at a solver-chosen tick 2..10 for 11 templates"},
+            "thorough": "the 5 templates + every template of props/interp_common.py (sequences, nested blocks, watches, alarms, macros, UOD commands in macros / alarms), 14-26 ticks; plus Pause / Hold (3 ticks) / Restart / Stop at every tick 2..10 (one shard each) for 11 templates, with symbolic increments in the window of 7 ticks around the command and irregular concrete increments outside it"},
     assumptions=["floats modelled as reals; counterexamples replayed with IEEE floats", "the update queue is drained after every tick",
                  "UOD callbacks stamp the tags they set with the current tick time (harness UOD does)", "fake hardware; log statements removed at import"],
 )]
